@@ -36,8 +36,8 @@ PROPS["C14"] = dict(
     level_note="Bounds: n<=4 quick / n<=8 thorough; E foreign keys; catalogue lists; dividend < 2^Dbits for the float parts. Outside: fully symbolic priorities under exact floats, "
                "dividends >= 2^32 for the share bound. Trusted: encoder, SMT solvers' FP theory (cvc5), math.Round = roundToIntegral RNA, float64(uint) = to_fp_unsigned RNE, uint(float) = fp.to_ubv RTZ.",
     technique="symbolic execution of go/ssa; Int encoding (Fair), uninterpreted floats (Rate structure), exact SMT floating point with cvc5 (Rate values)",
-    bounds=dict(quick="Fair/Rate-structure n in 1..4 symbolic priorities, E=1 foreign key; equivalence n in 1..4; L1 on lists [3 2 1],[2 1],[1] with D<2^16; L2 on [3 2 1],[70 20 10],[7 5 3 1] with D<2^32; exact Rate on [3 2 1],[7 5 3 1] with D<2^6",
-                thorough="n in 1..8, E=2; equivalence n<=6; L1 D<2^32 on [3 2 1],[2 1],[1]; L2 on 8 lists; exact Rate D<2^10 (share obligations on optionally pre-filled maps)"),
+    bounds=dict(quick="Fair/Rate-structure n in 1..4 symbolic priorities, E=1 foreign key; equivalence n in 1..4; L1 on lists [3 2 1],[2 1],[1] with D<2^16; L2 on [3 2 1],[70 20 10],[7 5 3 1] with D<2^32; exact Rate on [3 2 1],[7 5 3 1] with D<2^6, and on [1],[2 1] with D = 2^53 + d and 2^54 + d, d<16 (both modules)",
+                thorough="n in 1..8, E=2; equivalence n<=6; L1 D<2^32 on [3 2 1],[2 1],[1]; L2 on 8 lists; exact Rate D<2^10 (share obligations on optionally pre-filled maps); D = 2^b + d, b in {53,54,60,63}, d<16 on [1],[2 1],[3 2 1] (b=63: conservation and order only)"),
     assumptions=["float semantics: SMT-LIB FloatingPoint 11 53, RNE; math.Round = roundToIntegral RNA; conversions RNE/RTZ",
                  "maps are association lists with pairwise-distinct symbolic keys; map iteration order irrelevant to Fair/Rate (they index by the list)"],
     groups=[
@@ -62,6 +62,11 @@ PROPS["C14"] = dict(
              params=dict(quick=dict(list=[0, 1, 3], Dbits=[32]), thorough=dict(list=[0, 1, 2, 3, 4, 5, 6, 7], Dbits=[32]))),
         dict(mod="v2", pkg="priority/divider", overlay="harness/v2/divider", harness="^VerifC14_rate_exact$", native=True, timeout=dict(quick=60000, thorough=300000),
              params=dict(quick=dict(list=[0, 3, 14], Dbits=[6]), thorough=dict(list=[0, 1, 2, 3, 4, 5, 14], Dbits=[10]))),
+        # dividends 2^Dbase + d (d symbolic): magnitudes at which float64 no longer represents every integer (2^53) and the top of the type (2^63)
+        dict(name="rate_big", mod="v2", pkg="priority/divider", overlay="harness/v2/divider", harness="^VerifC14_rate_exact$", native=True, timeout=dict(quick=60000, thorough=300000),
+             params=dict(quick=dict(list=[5, 4], Dbits=[4], Dbase=[53, 54]), thorough=dict(list=[5, 4, 0], Dbits=[4], Dbase=[53, 54, 60, 63]))),
+        dict(name="rate_big_v1", mod="v1", pkg="priority", overlay="harness/v1/priority", harness="^VerifC14_rate_exact$", native=True, timeout=dict(quick=60000, thorough=300000),
+             params=dict(quick=dict(list=[5, 4], Dbits=[4], Dbase=[53, 54]), thorough=dict(list=[5, 4, 0], Dbits=[4], Dbase=[53, 54, 60, 63]))),
     ],
 )
 
@@ -215,6 +220,8 @@ _G_SAT3 = _v2p("^VerifC05_saturated_round$", dict(n=[3], Hmax=[3]), dict(n=[3], 
 _G_SORTL = _v2p("^VerifC15_sort_large$", dict(n=[9, 17, 40]), dict(n=[9, 17, 40, 130]))
 _G_ROUND2 = _v2p("^VerifC06_progress_two_rounds$", dict(n=[2, 3], Hmax=[3]), dict(n=[2, 3, 4], Hmax=[4]))
 _G_RUN = _v2p("^VerifC02_run$", dict(n=[1, 2], H=[1, 2], J=[1]), dict(n=[1, 2], H=[1, 2, 3], J=[1]), maxpaths=400000)
+# one busy input (JA items on the highest priority) next to idle ones: a round's second pass hands the unused allowance to the busy one (>= 3 items of one priority in one round)
+_G_RUN_BUSY = _v2p("^VerifC02_run$", dict(n=[2], H=[2], J=[0], JA=[3]), dict(n=[2], H=[2, 3], J=[0, 1], JA=[3]), maxpaths=400000)
 _G_RUN_RATE = _v2p("^VerifC02_run_rate$", dict(n=[1, 2], H=[1, 2], J=[1]), dict(n=[1, 2], H=[1, 2, 3], J=[1]), maxpaths=400000, approx=True)
 _G_SIMPLE = dict(mod="v2", pkg="priority/simple", overlay="harness/v2/simple", harness="^VerifC01_simple_handler$",
                  params=dict(quick=dict(H=[1, 2], K=[3]), thorough=dict(H=[1, 2, 3], K=[4])))
@@ -237,7 +244,7 @@ _prio("C01", "In-flight <= HandlersQuantity: the capacity monitor (ghost handed-
       [_G_STEP_A, _G_STEP_B, _G_PRIOR, _G_LOOP1, _G_NEW, _G_NEW_RATE, _G_RUN, _G_RUN_RATE, _G_SIMPLE, _G_SIMPLE_NEW])
 _prio("C02", "Exactly-once, correctly tagged, FIFO per priority: pending-item monitor (an input read is followed by the output write of exactly that item with the priority its channel is registered under, "
       "before any other read) on all step and loop paths; completeness and per-priority order on bounded runs from New to termination; Handle exactly once per item in the simple handler.",
-      [_G_STEP_A, _G_STEP_B, _G_PRIOR, _G_LOOP1, _G_RUN, _G_RUN_RATE, _G_SIMPLE])
+      [_G_STEP_A, _G_STEP_B, _G_PRIOR, _G_LOOP1, _G_RUN, _G_RUN_BUSY, _G_RUN_RATE, _G_SIMPLE])
 _prio("C05", "Saturation: from any state with actual[p] <= strategic[p] (shares as the constructor leaves them) and every input never empty, after any batch of releases one real base() round ends with "
       "actual[p] == strategic[p] for every p, every hand-out keeps actual[p] <= strategic[p], and waits only when all handlers are busy; the constructor sorts priorities high->low before dividing (any Inputs map order).",
       [_G_ROUND, _G_SAT3, _G_NEW, _G_NEW_RATE, _G_SORTL])
